@@ -63,6 +63,13 @@ def gen_lines(layouts, ops, a, rnd, per_op):
             # opaque opcode: a few generic operand shapes; only the Go-side predicates apply
             for args in (["r0"], ["r0", "r1"], ["r0", "0"], ["r0", "7"], ["r1", "5"], ["r0", "i0"], [], ["3"]):
                 lines.append(" ".join([name] + args))
+            if a.get("shared"):
+                # shared-object operands: q<k> st<k> u<k> k<k> br<k> lfsr8<k> ch<k>, in and out of range, with and without a register
+                for short in ("q", "st", "u", "k", "br", "lfsr8", "ch"):
+                    for k in (0, 1, 2, 4, 7):
+                        lines.append("%s r%d %s%d" % (name, k % 3, short, k))
+                        lines.append("%s %s%d" % (name, short, k))
+                        lines.append("%s %s%d r%d" % (name, short, k, k % 2))
             continue
         pools = [operand_pool(k, weval(w, a, nops), a, rnd) for k, w in l["fields"]]
         # mostly-valid stream: first three entries of each pool are in range
@@ -182,6 +189,12 @@ def make_archs(rnd, layouts, allops, tier):
     archs.append(dict(rsize=16, R=3, N=2, M=2, L=4, O=4, mode="hy", wordsize=0, shared="", ops=list(allops), modelled=False))
     archs.append(dict(rsize=64, R=2, N=1, M=1, L=2, O=4, mode="ha", wordsize=0, shared="",
                       ops=sorted(o for o in ("rset", "j", "jz", "m2r", "nop") if o in layouts), modelled=True))
+    # processors attached to shared objects (several of every kind): the opcodes that name them carry an object index field
+    shared = ",".join(["queue:4", "queue:4", "queue:8", "stack:4", "stack:4", "uart:a", "uart:b", "uart:c", "kbd:a", "kbd:b",
+                       "barrier:a", "barrier:b", "barrier:c", "lfsr8:a", "lfsr8:b", "channel:a", "channel:b", "channel:c", "channel:d", "channel:e"])
+    so_ops = [o for o in allops if o not in layouts and not o.startswith("rsets")]
+    archs.append(dict(rsize=8, R=2, N=1, M=1, L=2, O=4, mode="ha", wordsize=0, shared=shared, ops=sorted(set(so_ops) | {"rset", "nop", "j"}), modelled=False))
+    archs.append(dict(rsize=16, R=3, N=2, M=2, L=2, O=9, mode="ha", wordsize=0, shared=shared, ops=sorted(set(so_ops) | {"jz", "nop", "cpy"}), modelled=False))
     return archs
 
 
@@ -272,6 +285,24 @@ Print Assumptions current_tree_rejects_unfit.
                     res.known_finding("%s %s: %s" % (key, r["line"], text))
                 else:
                     viol.append((code, text, rs["arch"], r["line"]))
+    # ---- a whole program (accepted lines with comment and blank lines in between) assembles to exactly the words of its lines, in order,
+    # and disassembles to their disassemblies
+    nprogs = 0
+    for rs in results:
+        pl = rs.get("proglines") or []
+        if not pl or a.replay:
+            continue
+        nprogs += 1
+        single = {r["line"]: r for r in rs["res"] if r["err"] == ""}
+        want = [single[l]["word"] for l in pl]
+        if rs.get("progerr") or (rs.get("progwords") or []) != want:
+            viol.append(("program", "a program of %d instruction lines with comment and blank lines assembles to %s, its lines one by one to %s (%s)"
+                         % (len(pl), rs.get("progerr") or rs.get("progwords"), want, json.dumps(rs.get("progtext"))), rs["arch"], pl[0]))
+        elif [d.strip() for d in rs.get("progdis") or []] != [single[l]["dis"].strip() for l in pl if single[l]["diserr"] == ""] and \
+                all(single[l]["diserr"] == "" for l in pl):
+            viol.append(("program", "the disassembly of a program, %s, is not the disassembly of its words one by one, %s"
+                         % (rs.get("progdis"), [single[l]["dis"] for l in pl]), rs["arch"], pl[0]))
+    res.coverage["whole_programs_assembled"] = nprogs
     # ---- model vs implementation
     bodies, owners = [], []
     for rs, ar in zip(results, archs):
@@ -286,7 +317,7 @@ Print Assumptions current_tree_rejects_unfit.
                                          C.cq_list([C.cq_string(t) for t in r["dis"].split()])))
         bodies.append("From Coq Require Import List String NArith.\nFrom BM Require Import Isa.Encode Isa.EncodeCheck.\n"
                       "From BMGen Require Import GenLayout.\nImport ListNotations.\nLocal Open Scope string_scope.\n"
-                      "Definition c := (%s, %d, %d, %s).\nDefinition M := Eval vm_compute in check_arch table c.\n" % (
+                      "Definition c : arch * nat * nat * list obs := (%s, %d, %d, %s).\nDefinition M := Eval vm_compute in check_arch table c.\n" % (
                           arch_term(rs["arch"], rs["opnames"]), rs["opbits"], rs["maxword"], C.cq_list(["\n" + o for o in obs])))
         owners.append(rs)
     mism = []
